@@ -247,7 +247,7 @@ theorem RemInv.step (v : Addr) (s s' : Sys) (m : Msg) (rest subs : List Msg)
             | _ => simp [leaving]
           | _ => simp [leaving]
       omega
-    | hub s1 sender funds hm' heq h1 hc hx' _ _ _ _ g =>
+    | hub s1 sender funds hm' heq h1 _ hc hx' _ _ _ _ g =>
       injection heq with e1 e2 e3 e4
       subst e1; subst e2; subst e3; subst e4
       have hreg : ∀ reg vs, s.hub.registry = some reg → s1.hubEnv.validatorsOf reg = .ok vs → v ∉ vs.map (·.1) := by
@@ -348,7 +348,7 @@ theorem C13_end_to_end (s s' : Sys) (sender v : Addr) (c : ChainOK s) (hh : s.re
       · exact absurd rfl (hm' _ _ _ _)
       · injection heq with _ e2 _ _
         rcases ht with ht | ht <;> (rw [ht] at e2; cases e2)
-    | hub _ _ _ _ heq _ _ _ _ _ _ _ _ => injection heq with _ e2 _ _; cases e2
+    | hub _ _ _ _ heq _ _ _ _ _ _ _ _ _ => injection heq with _ e2 _ _; cases e2
     | bsei _ _ _ _ heq _ _ _ _ _ _ _ => injection heq with _ e2 _ _; cases e2
     | stsei _ _ _ _ heq _ _ _ _ _ _ => injection heq with _ e2 _ _; cases e2
     | reward _ _ _ _ heq _ _ _ _ _ _ _ _ _ => injection heq with _ e2 _ _; cases e2
